@@ -1,6 +1,7 @@
 CONSTANT Threads = {1, 2}
 CONSTANT MaxCalls = 1
 CONSTANT AsCodedReinit = TRUE
+CONSTANT AllowEdits = TRUE
 CONSTANT CastInPlace = FALSE
 SPECIFICATION Spec
 INVARIANT Immutable
